@@ -33,4 +33,6 @@ def run(check):
         c, M.merge(), 'C09.R3', ('leftwins',), 'name and kind come from the left operand',
         witness="merge(s('a, /'), s('b, /')) must be (a, /)"))
     check.run_rule('C09.R3b', lambda c: rm.concile_table(c, c.repo, {'leftwins': 'C09.R3', 'default': 'C09.R1', 'annotation': 'C09.R1'}))
+    from ..rules_derived import rule_lazy_iterators
+    check.run_rule('C09.R1c', lambda c: rule_lazy_iterators(c, 'C09.R1'))
     check.run_rule('C09.R4', lambda c: rm.rule_kind_closure(c, M.merge(), 'C09.R4'))
